@@ -308,7 +308,7 @@ def r5_loader(ctx, rule):
             for c in [x for x in ast.walk(st.test) if isinstance(x, ast.Call)]:
                 if call_name(c) == '_load_from_file':
                     fixed[cur] = U(c.args[0]).split('.')[-1]
-    facts = {'sections': got, 'fixed': {'/'.join(k): v for k, v in fixed.items() if k}}
+    facts = {'sections': got, 'fixed': {'/'.join(str(x) for x in k): v for k, v in fixed.items() if k}}
     wantf = {('Years', '1.txt'): 'count_years', ('Context', '1.txt'): 'count_context_sensitive', ('Grammar', 'grammar.txt'): 'count_base_structures'}
     if got == want and fixed == wantf:
         ctx.ok(rule, SG + 'load_grammar', 'each scorer table is loaded from the files of its own category', facts)
